@@ -7,7 +7,7 @@ use crate::{for_both, hx, Ctx};
 use blsful::*;
 use serde_json::json;
 
-pub const RULE: &str = "(a) exhaustive over the 10 exposed tag constants (Basic::DST, MessageAugmentation::DST, Pop::SIG_DST, Pop::POP_DST, ElGamal::ENC_DST for both impls): pairwise distinct, and the 8 signature/PoP ones equal to the draft literals; (b) behavioural, per (key, message) x all 6 ordered pairs (s1,s2) of distinct schemes x 2 groups: signature of s1 re-wrapped as s2 must fail (library and reference); a signature of any scheme over the public-key bytes presented as a proof of possession must fail; a proof of possession presented as a signature of any scheme over the public-key bytes must fail; a proof of knowledge made for s1 re-labelled s2 must fail; a signcryption ciphertext whose scheme field is re-labelled must be invalid and decrypt to nothing; a time-lock ciphertext must not open with the signature of another scheme, nor after being re-labelled. Every negative case has its positive twin in the same run (un-relabelled artefact accepted); a case whose twin fails is counted as vacuous and does not count as coverage. Distinct by (suite, purpose, s1, s2, artefact bytes).";
+pub const RULE: &str = "(a) exhaustive over the 10 exposed tag constants (Basic::DST, MessageAugmentation::DST, Pop::SIG_DST, Pop::POP_DST, ElGamal::ENC_DST for both impls): pairwise distinct, and the 8 signature/PoP ones equal to the draft literals; (b) behavioural, per (key, message) x all 6 ordered pairs (s1,s2) of distinct schemes x 2 groups: signature of s1 re-wrapped as s2 must fail (library and reference); a signature of any scheme over the public-key bytes presented as a proof of possession must fail; a proof of possession presented as a signature of any scheme over the public-key bytes must fail; a proof of knowledge made for s1 re-labelled s2 must fail; a signcryption ciphertext whose scheme field is re-labelled must be invalid and decrypt to nothing; a time-lock ciphertext must not open with the signature of another scheme, nor after being re-labelled. (c) history clusters (2 quick / 10 thorough per group): for one key, message and identifier every artefact of every scheme under every label (signatures incl. signature-over-pk vs proof of possession, signcryption is_valid / decrypt / decryption key, time-lock sealed x label x opening signature, proofs of knowledge; ~80 questions) is asked in ordered pairs (a,b) as the sequence a,b,b,a - every pair within a family, 300/1200 sampled pairs across families - and each answer must equal the answer the question has on its own (accepted exactly when all labels agree). Every negative case has its positive twin in the same run (un-relabelled artefact accepted); a case whose twin fails is counted as vacuous and does not count as coverage. Distinct by (suite, purpose, s1, s2, artefact bytes).";
 
 pub fn run(ctx: &mut Ctx) {
     tags(ctx);
@@ -82,6 +82,14 @@ fn run_suite<C: Suite>(ctx: &mut Ctx) {
     let n = C::NAME;
     let mut g = base;
     let tuples = ctx.tier.pick(3, 24);
+    // history clusters (see history_cluster)
+    ctx.require(&format!("{n}/history"));
+    for i in 0..ctx.tier.pick(2, 10) {
+        g += 1;
+        if ctx.mine(g) {
+            history_cluster::<C>(ctx, g, i);
+        }
+    }
     for s1 in SCHEMES {
         for s2 in s1.others() {
             for purpose in ["signature", "pok", "signcrypt", "timelock-foreign-sig", "timelock-relabel"] {
@@ -233,4 +241,88 @@ fn run_suite<C: Suite>(ctx: &mut Ctx) {
             }
         }
     }
+}
+
+/// One key, one message, one identifier; every artefact of every scheme presented under every
+/// scheme label, asked in ordered pairs as a, b, b, a (all pairs inside a family, sampled pairs
+/// across families). The answers on their own are what sections (b) establish: accepted exactly
+/// when all labels agree.
+fn history_cluster<C: Suite>(ctx: &mut Ctx, g: u64, i: usize) {
+    use super::history::{family_pairs, q, sandwich_pairs, Q};
+    let mut rng = ctx.rng(g);
+    let n = C::NAME;
+    let k = gen::random_scalar(&mut rng);
+    let sk = sk_from_rs::<C>(&k);
+    let pk = sk.public_key();
+    let pkb = pk_bytes(&pk);
+    let msg = gen::message([32usize, 0, 7, 48, 96, 200][i % 6], Content::Random, &mut rng);
+    let id = gen::message([8usize, 32, 0][i % 3], Content::Random, &mut rng);
+    type A = Option<Vec<u8>>;
+    let yes: A = Some(vec![1]);
+    let no: A = Some(vec![0]);
+    let verdict = |b: bool| -> A { Some(vec![b as u8]) };
+    let mut qs: Vec<Q<A>> = Vec::new();
+    let (skr, pkr, msgr, pkbr, idr) = (&sk, &pk, &msg, &pkb, &id);
+    // signatures: made under s1, presented under s2
+    for s1 in SCHEMES {
+        let Ok(sig) = sk.sign(lscheme(s1), &msg) else { return };
+        for s2 in SCHEMES {
+            let re = wrap_sig::<C>(s2, *sig.as_raw_value());
+            qs.push(q(format!("signature/made-{}/presented-{}", s1.name(), s2.name()), if s1 == s2 { yes.clone() } else { no.clone() }, move || verdict(re.verify(pkr, msgr).is_ok())));
+        }
+        // a signature over the public-key bytes as a proof of possession, and the other way round
+        let Ok(sop) = sk.sign(lscheme(s1), &pkb) else { return };
+        let as_pop = ProofOfPossession::<C>(*sop.as_raw_value());
+        qs.push(q(format!("signature/over-pk-{}-as-pop", s1.name()), no.clone(), move || verdict(as_pop.verify(*pkr).is_ok())));
+        qs.push(q(format!("signature/over-pk-{}", s1.name()), yes.clone(), move || verdict(sop.verify(pkr, pkbr).is_ok())));
+        let Ok(pop) = sk.proof_of_possession() else { return };
+        let as_sig = wrap_sig::<C>(s1, pop.0);
+        qs.push(q(format!("signature/pop-as-{}-over-pk", s1.name()), no.clone(), move || verdict(as_sig.verify(pkr, pkbr).is_ok())));
+    }
+    {
+        let Ok(pop) = sk.proof_of_possession() else { return };
+        qs.push(q("signature/pop".to_string(), yes.clone(), move || verdict(pop.verify(*pkr).is_ok())));
+    }
+    // signcryption: sealed under s1, label s2
+    for s1 in SCHEMES {
+        let ct = pk.sign_crypt(lscheme(s1), &msg);
+        for s2 in SCHEMES {
+            let mut re = ct.clone();
+            re.scheme = lscheme(s2);
+            let re2 = re.clone();
+            let re3 = re.clone();
+            qs.push(q(format!("signcrypt/sealed-{}/label-{}/is_valid", s1.name(), s2.name()), if s1 == s2 { yes.clone() } else { no.clone() }, move || verdict(bool::from(re.is_valid()))));
+            qs.push(q(format!("signcrypt/sealed-{}/label-{}/decrypt", s1.name(), s2.name()), if s1 == s2 { Some(msg.clone()) } else { None }, move || ct_some(re2.decrypt(skr))));
+            qs.push(q(format!("signcrypt/sealed-{}/label-{}/decryption-key", s1.name(), s2.name()), if s1 == s2 { Some(msg.clone()) } else { None }, move || ct_some(skr.sign_decryption_key::<&[u8]>(&re3).decrypt(&re3))));
+        }
+    }
+    // time-lock: sealed under s1, label s2, opened with the signature of s3 over the identifier
+    for s1 in SCHEMES {
+        let Ok(ct) = pk.encrypt_time_lock(lscheme(s1), &msg, &id) else { return };
+        for s2 in SCHEMES {
+            for s3 in SCHEMES {
+                let mut re = ct.clone();
+                re.scheme = lscheme(s2);
+                let Ok(sig) = sk.sign(lscheme(s3), idr) else { return };
+                let all = s1 == s2 && s2 == s3;
+                qs.push(q(format!("timelock/sealed-{}/label-{}/signature-{}", s1.name(), s2.name(), s3.name()), if all { Some(msg.clone()) } else { None }, move || ct_some(re.decrypt(&sig))));
+            }
+        }
+    }
+    // proofs of knowledge (Basic and ProofOfPossession; the MessageAugmentation variant is the
+    // known finding of C10): made under s1, label s2
+    let y = ProofCommitmentChallenge::<C>::from_hash(&msg);
+    for s1 in [Scheme::Basic, Scheme::Pop] {
+        let Ok(sig) = sk.sign(lscheme(s1), &msg) else { return };
+        let Ok(pok) = ProofCommitment::<C>::generate(&msg, sig).and_then(|(c, x)| c.finalize(x, y, sig)) else { return };
+        for s2 in SCHEMES {
+            let re = relabel_pok(&pok, s2);
+            qs.push(q(format!("pok/made-{}/label-{}", s1.name(), s2.name()), if s1 == s2 { yes.clone() } else { no.clone() }, move || verdict(re.verify(*pkr, msgr, y).is_ok())));
+        }
+    }
+    let pairs = family_pairs(&qs, ctx.tier.pick(300, 1200), &mut rng);
+    let d = || json!({"suite":n,"sk":hex::encode(k.to_be_bytes()),"msg":hx(&msg),"id":hx(&id),"note":"verdicts answer [1]/[0]; decrypt questions answer the plaintext or null"});
+    let mut cid = k.to_be_bytes().to_vec();
+    cid.extend_from_slice(&msg);
+    sandwich_pairs(ctx, "C05", &format!("{n}/history"), "relabelling", &cid, &d, &qs, &pairs);
 }
